@@ -1,6 +1,3 @@
-import SphericalVerif.Props.C01
 import SphericalVerif.Props.HKernel
-#print axioms C01.eps_eq_gen
-#print axioms C01.dEntry_formula
 #print axioms HKernel.runH_pure
 #print axioms HKernel.runH_size_indep
